@@ -231,6 +231,8 @@ pub struct CHostB {{ pub keep: u32, {ai} pub gmember: u64 }}
 #[serde(tag = "t", content = "c")]
 pub enum CHostV {{ Keep(u32), {ai} GBad(u32, String), Sv {{ keep: u32, {ai} #[serde(flatten)] gmember: CInner }} }}
 #[typeshare]
+pub enum CHostU {{ Keep, Also, {ai} GData(u32), {ai} GStruct {{ x: u32 }} }}
+#[typeshare]
 {a}pub struct CBig {{ pub n: u64 }}
 """
 
@@ -261,7 +263,10 @@ def dropped_contents(chk, cases):
         if "CHostV" in enums:
             left += ["CHostV::GBad" for v in enums["CHostV"]["variants"] if v["id"]["original"] == "GBad"]
             left += ["CHostV::Sv.gmember" for v in enums["CHostV"]["variants"] if v["id"]["original"] == "Sv" and any(f["id"]["original"] == "gmember" for f in v.get("fields", []))]
-        missing = [n for n in ("CHostF", "CHostB") if n not in structs] + ([] if "CHostV" in enums else ["CHostV"])
+        # CHostU carries no serde(tag, content): without its data-carrying variants (dropped by the rule) it is an ordinary unit enum
+        if "CHostU" in enums:
+            left += ["CHostU::" + v["id"]["original"] for v in enums["CHostU"]["variants"] if v["id"]["original"] in ("GData", "GStruct")]
+        missing = [n for n in ("CHostF", "CHostB") if n not in structs] + ([] if "CHostV" in enums else ["CHostV"]) + ([] if "CHostU" in enums else ["CHostU"])
         if left or missing:
             chk.mismatch(f"C13/contents/{shape(attrs)}/{tclass(attrs, T)}/kept=True",
                          f"guarded by {attrs_text(attrs).strip()} with --target-os {T}: the rule drops the members, typeshare kept {left} / lost the hosts {missing}",
